@@ -56,6 +56,16 @@ def session(name, seed=0):
         return mkboards(1, seed), lambda: bundled_clients('weak', order='WSEN', seed=seed)
     if name == 'S6':      # three played boards, arrival order E N W S
         return mkboards(3, seed + 1), lambda: bundled_clients('weak', order='ENWS', seed=seed)
+    if name == 'S7':      # two boards configured with ONE Hands object (the same deal replayed): played, then passed out
+        bs = mkboards(2, seed)
+        bs[1] = type(bs[1])(hands=bs[0].hands, dealer=bs[1].dealer, vul=bs[1].vul, board_id=bs[1].board_id)
+        sc = {'N': [[1], []], 'E': [[], []], 'S': [[], []], 'W': [[], []]}
+        return bs, lambda: bundled_clients('script', scripts=sc, seed=seed)
+    if name == 'S8':      # both sides name the same strain, the side that named it second declares: 1NT (2NT) all pass
+        sc = {'N': [[5]], 'E': [[10]], 'S': [[]], 'W': [[]]}
+        bs = mkboards(1, seed + 2)
+        bs[0] = type(bs[0])(hands=bs[0].hands, dealer=type(bs[0].dealer)(1), vul=bs[0].vul, board_id=bs[0].board_id)
+        return bs, lambda: bundled_clients('script', scripts=sc, seed=seed)
     if name in ('A1', 'A2'):
         # admission: invalid requests interleaved with the four bundled clients (arrival order is the list order)
         def mk():
